@@ -469,6 +469,38 @@ func runStructLoggerPair(c *diffCase, gas uint64) string {
 	return "same"
 }
 
+// touchesArtelaPrecompile: some account-access step (BALANCE, EXTCODESIZE/COPY/HASH, SELFDESTRUCT: top of stack; the CALL family:
+// second from top) names one of the addresses 0x64-0x66
+func touchesArtelaPrecompile(trace []string) bool {
+	for _, l := range trace {
+		if !strings.HasPrefix(l, "step ") {
+			continue
+		}
+		f := strings.Fields(l)
+		if len(f) < 7 {
+			continue
+		}
+		pos := -1
+		switch f[2] {
+		case "op31", "op3b", "op3c", "op3f", "opff":
+			pos = 0
+		case "opf1", "opf2", "opf4", "opfa":
+			pos = 1
+		}
+		if pos < 0 {
+			continue
+		}
+		st := f[6] // "<n>:<top>,<next>,…"
+		if i := strings.Index(st, ":"); i >= 0 {
+			items := strings.Split(st[i+1:], ",")
+			if pos < len(items) && (items[pos] == "0x64" || items[pos] == "0x65" || items[pos] == "0x66") {
+				return true
+			}
+		}
+	}
+	return false
+}
+
 // executesJournalByte: some step of the fork's trace has an opcode byte in 0xe0-0xe7
 func executesJournalByte(trace []string) bool {
 	for _, l := range trace {
@@ -517,6 +549,12 @@ func driveDiff(seed uint64, n int, size int, em *Emitter) {
 		c.create = r.Chance(10)
 		gas := uint64(3_000_000)
 		f, u := runFork(c, gas, true), runUpstream(c, gas, true)
+		if touchesArtelaPrecompile(f.trace) {
+			// an account-access instruction named 0x64-0x66: in the fork these are precompiles (warm under EIP-2929, callable),
+			// upstream they are ordinary empty accounts - not a program over the standard precompile set
+			em.Count("diff:out-of-scope:artela-precompile-address-touched")
+			continue
+		}
 		if executesJournalByte(f.trace) {
 			// the execution reached one of the bytes 0xe0-0xe7 as an instruction (data copied to memory and run as init code, a
 			// hash output used as code, …): not a program over the standard instruction set, so the property does not speak about it
